@@ -1,4 +1,4 @@
-\* one user contract, one slot, values {0,1,2}, one Cairo-0 class (declared on the way), <= 3 blocks
+\* one user contract, one slot, values {0,1,2}, two Cairo-0 classes, <= 3 blocks, diffs of <= 3 entries
 CONSTANTS
   Users = {"c1"}
   Sys = {}
